@@ -134,7 +134,7 @@ mod verif_l2_amend {
         kani::cover!(true, "reach_end");
     }
 
-    //@ob id=L2.amend.mds flags=noassert props=C11,C12,C01 tier=quick kind=harness fns=plane/from_downlink.rs:update_from_downlink,plane/from_downlink/from_mds.rs:update_from_downlink
+    //@ob id=L2.amend.mds flags=noassert props=C11,C12,C01,C19 tier=quick kind=harness fns=plane/from_downlink.rs:update_from_downlink,plane/from_downlink/from_mds.rs:update_from_downlink
     //@region default path, row <- Comm-B record (used when a DF20/21 frame creates a row): contributes the address only; time stamp = receive time
     #[kani::proof]
     #[kani::unwind(34)]
@@ -165,7 +165,7 @@ mod verif_l2_amend {
         kani::cover!(true, "reach_end");
     }
 
-    //@ob id=L2.amend.empty flags=noassert props=C12,C11,C01 tier=quick kind=harness fns=plane/from_downlink.rs:update_from_downlink
+    //@ob id=L2.amend.empty flags=noassert props=C12,C11,C01,C19 tier=quick kind=harness fns=plane/from_downlink.rs:update_from_downlink
     //@region default path, row <- a record WITHOUT an address (what DF::from_message builds for DF18, DF19, DF22..31: an accepted frame of a format the default path does not decode), every record variant x every row: the last-contact time stamp still restarts (C12: every accepted frame of any format), nothing else changes
     #[kani::proof]
     #[kani::unwind(34)]
@@ -395,7 +395,7 @@ mod verif_l2_amend {
             && p.adsb_version.is_none()
     }
 
-    //@ob id=L2.create.blank flags=noassert props=C12,C11,C01 tier=quick kind=harness fns=plane.rs:Plane::new
+    //@ob id=L2.create.blank flags=noassert props=C12,C11,C01,C19 tier=quick kind=harness fns=plane.rs:Plane::new
     //@region Plane::new: a fresh row remembers nothing (every parameter blank, CPR slots empty, time stamps = creation time)
     #[kani::proof]
     #[kani::unwind(34)]
@@ -407,7 +407,7 @@ mod verif_l2_amend {
         kani::cover!(true, "reach_end");
     }
 
-    //@ob id=L2.create.from_downlink flags=noassert props=C12,C11,C03,C17,C01 tier=quick kind=harness fns=plane.rs:Plane::from_downlink
+    //@ob id=L2.create.from_downlink flags=noassert props=C12,C11,C03,C17,C01,C19 tier=quick kind=harness fns=plane.rs:Plane::from_downlink
     //@region Plane::from_downlink(record, key) for every record variant and key: = blank row with icao = key, reg = icao_to_country(key), then the record applied (so creation obeys the same L2.amend contracts from the blank state)
     #[kani::proof]
     #[kani::unwind(34)]
